@@ -47,23 +47,23 @@ func ParamLayouts(remoteAS uint32) [][]byte {
 		P(wire.Cap{Code: 65, Value: []byte{0, 1}}),          // 65 of length 2
 		P(wire.Cap{Code: 65}),                               // 65 of length 0
 		P(wire.Cap{Code: 65, Value: []byte{0, 0, 0, 1, 2}}), // 65 of length 5
-		P(c65, big),                // large but fitting
-		{2, 0},                     // empty capabilities parameter
-		cat([]byte{2, 0}, P(c65)),  // empty capabilities parameter then good
-		cat(P(c65), []byte{2, 0}),  // good then empty capabilities parameter
-		{1, 0},                     // unknown parameter type, empty
-		cat([]byte{1, 2, 9, 9}, P(c65)),   // unknown parameter then good
-		cat(P(c65), []byte{255, 1, 7}),    // good then unknown parameter
-		{3, 1, 0},                         // unknown only
-		{2},                               // truncated parameter header
-		cat(P(c65), []byte{2}),            // trailing single byte
-		{2, 7, 65, 4, 0, 0},               // parameter length overruns
-		{2, 6, 65, 5, 0, 0, 0, 1},         // capability length overruns parameter
-		{2, 5, 65, 4, 0, 0, 0},            // capability value cut short
-		{2, 7, 65, 4, 0, 0, 0xfd, 0xea, 1}, // capability header cut short at end of parameter
-		cat(P(c65), []byte{2, 3, 1, 4, 0}), // second parameter malformed
+		P(c65, big),                           // large but fitting
+		{2, 0},                                // empty capabilities parameter
+		cat([]byte{2, 0}, P(c65)),             // empty capabilities parameter then good
+		cat(P(c65), []byte{2, 0}),             // good then empty capabilities parameter
+		{1, 0},                                // unknown parameter type, empty
+		cat([]byte{1, 2, 9, 9}, P(c65)),       // unknown parameter then good
+		cat(P(c65), []byte{255, 1, 7}),        // good then unknown parameter
+		{3, 1, 0},                             // unknown only
+		{2},                                   // truncated parameter header
+		cat(P(c65), []byte{2}),                // trailing single byte
+		{2, 7, 65, 4, 0, 0},                   // parameter length overruns
+		{2, 6, 65, 5, 0, 0, 0, 1},             // capability length overruns parameter
+		{2, 5, 65, 4, 0, 0, 0},                // capability value cut short
+		{2, 7, 65, 4, 0, 0, 0xfd, 0xea, 1},    // capability header cut short at end of parameter
+		cat(P(c65), []byte{2, 3, 1, 4, 0}),    // second parameter malformed
 		cat([]byte{2, 200}, make([]byte, 20)), // length octet far too large
-		cat(P(c65), []byte{0}),             // trailing zero byte
+		cat(P(c65), []byte{0}),                // trailing zero byte
 	}
 }
 
@@ -230,4 +230,3 @@ func PluginCaps(r *rand.Rand) []wire.Cap {
 	}
 	return caps
 }
-
